@@ -187,6 +187,15 @@ NC_var_shape(NC_var *var, NC_array *dims)
             var->len *= *shp;
     }
 
+    /* An HDF file addresses the data of a variable (of one record, with an
+       unlimited dimension) with signed 32-bit offsets: a bigger variable
+       cannot be stored, its offsets would wrap */
+    if (var->cdf->file_type == HDF_FILE && var->len > 0x7fffffffUL) {
+        NCadvise(NC_EINVAL, "Variable \"%s\" takes %lu bytes, more than an HDF file can address", var->name->values,
+                 var->len);
+        return -1;
+    }
+
 out:
     /* don't round-up for HDF-encoded files */
     if (var->cdf->file_type != HDF_FILE)
